@@ -246,10 +246,20 @@ func scaleUploads(sysName string, n int, seed int64) ([]wEvent, error) {
 		live = append(live, wEntry{K: fromBytes(key), ID: in.UploadID, A: "", Ord: len(live)})
 		return nil
 	}
+	// one key whose uploads were initiated far apart (server-issued ids of 1, 2, 3 and 4 digits, should ids be counters)
+	mixAt := map[int]bool{0: true, 8: true, 9: true, 98: true, 99: true, 998: true}
 	for i := 0; i < n; i++ {
+		if mixAt[i] {
+			if err := initiate("mix"); err != nil {
+				return nil, err
+			}
+		}
 		if err := initiate(fmt.Sprintf("u/%04d", i)); err != nil {
 			return nil, err
 		}
+	}
+	if err := initiate("mix"); err != nil {
+		return nil, err
 	}
 	for i := 0; i < 6; i++ { // several uploads on one key, initiated last but sorting first
 		if err := initiate("same"); err != nil {
@@ -262,6 +272,11 @@ func scaleUploads(sysName string, n int, seed int64) ([]wEvent, error) {
 			s.w.omitMax = m[1] == 1
 			s.w.walkUploads(Op{}, "bkt1", q[0], q[1], m[0])
 		}
+	}
+	// pages that end inside the key whose upload ids differ in length
+	s.w.omitMax = false
+	for _, max := range []int{1, 2, 3, 5} {
+		s.w.walkUploads(Op{}, "bkt1", "mix", "", max)
 	}
 	return s.w.out, nil
 }
